@@ -24,5 +24,11 @@ CLAIMED = {
         design_ref="§4 C12, §3.5",
         note="cells the documentation does not fix are marked Unspec and only judged by the consistency relation; pool of 29 values; decimals one digit",
     ),
+    "C13": dict(
+        technique="TLA+ reference semantics of for/tablerow slicing, continue bookkeeping and loop helpers (Loops.tla) checked with TLC; every enumerated loop program replayed into real renders",
+        text="TLC checks ElseIffEmpty/HelpersConsistent/ZeroOrNegativeLimitVisitsNothing/ContinuePartitions/TableShape over collections of length 0..2 (thorough 0..4), limit/offset in {absent,-2..n+1,huge,continue}, reversed, break, cols, and chains of up to three loops sharing an offset:continue key; each program is rendered sync+async over array/hash/range/tuple collections with literal/variable/string arguments; visited items, else, every forloop/tablerowloop helper and the HTML row/column structure must equal the specification's",
+        design_ref="§4 C13",
+        note="offset:continue after a negative offset unclaimed; tablerow cols<=0 outside the family; nesting depth 1 (parentloop not covered here)",
+    ),
 }
 NOT_APPLICABLE = {}
